@@ -278,9 +278,9 @@ def composition(chk, ok, cases, obs):
     comp = []
     for v in pick:
         h = Fraction(v[0], v[1])
-        j = rng.choice([Fraction(0), Fraction(1, 4), c18.dy(rng), Fraction(2)])
-        fb = rng.choice([c18.dy(rng, 2, 8), h + j + 8, Fraction(0), "nan"])
-        rem = rng.choice([None, None, h + j + c18.dy(rng, 0, 8), h, h / 2, c18.dy(rng)])
+        j = rng.choice([Fraction(0), Fraction(1, 4), c18.dy(rng), Fraction(2), -c18.dy(rng), Fraction(-1, 4)])     # negative: no jitter
+        fb = rng.choice([c18.dy(rng, 2, 8), h + max(j, 0) + 8, Fraction(0), "nan"])
+        rem = rng.choice([None, None, h + max(j, 0) + c18.dy(rng, 0, 8), h, h / 2, c18.dy(rng)])
         comp.append({"kind": "retry_after", "ra": c18.fr(h), "jitter": c18.fr(j), "fallback": c18.fr(fb), "remaining": c18.fr(rem),
                      "r": c18.fr(c18.draw(rng))})
     o2 = common.run_driver("strategies_driver", comp, jobs=4)
@@ -314,7 +314,7 @@ def policy_part(chk):
     for i in range(160 if chk.tier == "quick" else 1500):
         h = rng.choice(headers)
         attr = rng.choice([None, None, None, 0, 0.0, 3, -2, "0", "7"]) if h is None or rng.random() < 0.2 else None
-        cases.append({"header": h, "attr": attr, "fallback": rng.choice([64 * 9, 64 * 2, 32]), "jitter": rng.choice([0, 0, 32, 64]),
+        cases.append({"header": h, "attr": attr, "fallback": rng.choice([64 * 9, 64 * 2, 32]), "jitter": rng.choice([0, 0, 32, 64, -32, -640]),
                       "deadline": rng.choice([10**6, 64 * 60, 64 * 3]), "async": rng.random() < 0.5,
                       "entry": rng.choice(["retry", "retrypolicy", "policy"]), "r": [rng.choice([0, 1, 3]), 4]})
     res = common.run_driver("c20_policy_driver", cases, jobs=4)
@@ -332,7 +332,7 @@ def policy_part(chk):
             continue
         hs = Fraction(h[0], h[1]) * 64          # ticks
         zero += hs == 0
-        d, rem, j = r["delays"][0], c["deadline"], c["jitter"]
+        d, rem, j = r["delays"][0], c["deadline"], max(0, c["jitter"])      # a negative jitter_s means no jitter
         if not (min(hs, rem) <= d <= hs + j):
             bad = bad or (c, r, f"{'async ' if c['async'] else ''}{c['entry']}.call: the classifier's hint is {float(hs) / 64} s (Retry-After "
                                 f"{c['header']!r}, retry_after {c['attr']!r}), jitter_s {j / 64} s, {rem / 64} s remain, but the sleeper got {d / 64} s")
@@ -409,7 +409,7 @@ def replay(path):
         o = common.run_driver("c20_policy_driver", [r["policy_case"]])[0]
         print("observed:", o)
         hs = o["hint"]
-        okk = isinstance(hs, list) and len(o["delays"]) == 1 and min(Fraction(hs[0], hs[1]) * 64, r["policy_case"]["deadline"]) <= o["delays"][0] <= Fraction(hs[0], hs[1]) * 64 + r["policy_case"]["jitter"]
+        okk = isinstance(hs, list) and len(o["delays"]) == 1 and min(Fraction(hs[0], hs[1]) * 64, r["policy_case"]["deadline"]) <= o["delays"][0] <= Fraction(hs[0], hs[1]) * 64 + max(0, r["policy_case"]["jitter"])
         print("oracle:", "holds" if okk or hs is None else "violated")
         return 0 if okk or hs is None else 1
     if "strategy_case" in r:
